@@ -308,11 +308,11 @@ pub fn property() -> Property {
         ],
         minimise: None,
         subs: vec![
-            Sub::Bytes(BytesSub { name: "raw", f: raw, max_len: 64, quick: Budget { threads: 8, cases: 6000 }, thorough: Budget { threads: 16, cases: 300_000 }, keep_unreproducible: false }),
-            Sub::Bytes(BytesSub { name: "literal", f: literal, max_len: 400, quick: Budget { threads: 8, cases: 5000 }, thorough: Budget { threads: 16, cases: 200_000 }, keep_unreproducible: false }),
-            Sub::Bytes(BytesSub { name: "quoted", f: quoted, max_len: 96, quick: Budget { threads: 8, cases: 5000 }, thorough: Budget { threads: 16, cases: 200_000 }, keep_unreproducible: false }),
-            Sub::Bytes(BytesSub { name: "unquoted", f: unquoted, max_len: 48, quick: Budget { threads: 4, cases: 3000 }, thorough: Budget { threads: 16, cases: 100_000 }, keep_unreproducible: false }),
-            Sub::Bytes(BytesSub { name: "bodies", f: bodies, max_len: 64, quick: Budget { threads: 8, cases: 8000 }, thorough: Budget { threads: 16, cases: 400_000 }, keep_unreproducible: false }),
+            Sub::Bytes(BytesSub { name: "raw", f: raw, max_len: 64, quick: Budget { threads: 8, cases: 48000 }, thorough: Budget { threads: 16, cases: 300_000 }, keep_unreproducible: false }),
+            Sub::Bytes(BytesSub { name: "literal", f: literal, max_len: 400, quick: Budget { threads: 8, cases: 40000 }, thorough: Budget { threads: 16, cases: 200_000 }, keep_unreproducible: false }),
+            Sub::Bytes(BytesSub { name: "quoted", f: quoted, max_len: 96, quick: Budget { threads: 8, cases: 40000 }, thorough: Budget { threads: 16, cases: 200_000 }, keep_unreproducible: false }),
+            Sub::Bytes(BytesSub { name: "unquoted", f: unquoted, max_len: 48, quick: Budget { threads: 4, cases: 24000 }, thorough: Budget { threads: 16, cases: 100_000 }, keep_unreproducible: false }),
+            Sub::Bytes(BytesSub { name: "bodies", f: bodies, max_len: 64, quick: Budget { threads: 8, cases: 64000 }, thorough: Budget { threads: 16, cases: 400_000 }, keep_unreproducible: false }),
         ],
     }
 }
